@@ -83,8 +83,14 @@ structure RState where
   cnf : Option Nat
   /-- the local `sat` -/
   sat : Option Nat
+  /-- paths whose `write` of the formula succeeded -/
+  wrote : List Nat
+  /-- paths written AND then closed successfully: the file holds the complete formula -/
+  flushed : List Nat
   /-- file arguments of the started process -/
   proc : Option (List Nat)
+  /-- when the process was started, its input file (first file argument) held the complete formula -/
+  inputReady : Bool
   /-- the process ran to completion (`communicate` was entered) -/
   ran : Bool
   /-- the solver wrote its result file -/
@@ -98,7 +104,8 @@ structure RState where
   deriving Repr, DecidableEq, Inhabited
 
 def RState.init : RState :=
-  { fresh := 0, files := [], created := [], refused := [], cnf := none, sat := none, proc := none,
+  { fresh := 0, files := [], created := [], refused := [], cnf := none, sat := none, wrote := [],
+    flushed := [], proc := none, inputReady := false,
     ran := false, fileWritten := false, gotOutput := false, gotFile := false, trace := [] }
 
 def RState.slot (st : RState) : RSlot → Option Nat
@@ -154,15 +161,24 @@ def step (rmIn rmOut hasFile : Bool) (o : ROp) (f : Fault) (st0 : RState) : RSta
       ({ st' with fresh := st.fresh + 1, files := st.files ++ [st.fresh],
                   created := st.created ++ [st.fresh] }, none)
   | .render => (st, f.exn)
-  | .write s => withSlot st s fun _ => (st, f.exn)
-  | .close s => withSlot st s fun _ => (st, f.exn)
+  | .write s => withSlot st s fun p =>
+    match f.exn with
+    | some e => (st, some e)
+    | none => ({ st with wrote := st.wrote ++ [p] }, none)
+  | .close s => withSlot st s fun p =>
+    match f.exn with
+    | some e => (st, some e)
+    | none => ({ st with flushed := if st.wrote.contains p then st.flushed ++ [p] else st.flushed }, none)
   | .spawn fs =>
     match fs.mapM st.slot with
     | none => (st, some (.py .unbound))
     | some ps =>
       match f.exn with
       | some e => (st, some e)
-      | none => ({ st with proc := some ps }, none)
+      | none => ({ st with proc := some ps,
+                            inputReady := match ps with
+                              | [] => true
+                              | i :: _ => st.flushed.contains i }, none)
   | .communicate _ =>
     -- the process runs to completion, then the call returns or raises
     let st1 := procEffects rmIn rmOut hasFile st
@@ -293,6 +309,8 @@ structure Obs where
   trace : List ROp
   /-- a solver process was started -/
   started : Bool
+  /-- … and at that moment its input file held the complete formula, closed -/
+  inputReady : Bool
   deriving Repr
 
 def liftErr {α} : Except Err α → Except Exn α
@@ -333,7 +351,8 @@ def observe (f : Iface) (b : Beh) (r : RState × Option Exn) : Obs :=
     left := r.1.created.filter r.1.files.contains,
     refused := r.1.refused,
     trace := r.1.trace,
-    started := r.1.proc.isSome }
+    started := r.1.proc.isSome,
+    inputReady := r.1.inputReady }
 
 /-- `_satsolve_…(F, cmd)` of variant `v` with solver behaviour `b` under fault schedule `sched` -/
 def runProg (v : Variant) (f : Iface) (b : Beh) (sched : List Fault) : Obs :=
@@ -350,7 +369,8 @@ a command line behaves. -/
 def solveW (v : Variant) (installed : List String) (beh : Iface → String → Beh) (sched : List Fault)
     (cmd sameas : Option String) : Obs :=
   match selectInterface cmd sameas installed with
-  | .error e => { outcome := .error (.py e), left := [], refused := [], trace := [], started := false }
+  | .error e => { outcome := .error (.py e), left := [], refused := [], trace := [], started := false,
+                  inputReady := false }
   | .ok (f, c) => runProg v f (beh f c) sched
 
 /-- `CNF.is_satisfiable` = `sat_solve(...)[0]` -/
